@@ -1,27 +1,33 @@
 """C04 — per-source concurrency never exceeds the limit; every admitted request returns its slot."""
 
+import re
+
 ID = "C04"
 HARNESS = "c04"
 DRIVER = "c04"
 PROPS_MODULE = "OxyModel.Props.C04"
 AUDIT = "OxyModel/Audit/C04.lean"
-THEOREMS = ["C04.C04_inflight_le_max", "C04.C04_reject_iff_full", "C04.C04_slots_exact",
+THEOREMS = ["C04.C04_inflight_le_max", "C04.C04_reject_iff_full", "C04.C04_slots_exact", "C04.C04_rejection_holds_nothing",
             "C04.C04_release_on_every_exit", "C04.C04_quiescent_restores_max"]
 RACE = True
 JOBS = 12
 RULE = ("scenario = deterministic interleaving of start/finish(normal|panic) events of up to 40 requests from 1-4 sources "
         "against limits -1..5 (handlers block on channels), built-in header extractor or a custom extractor with amounts "
-        "0..3/-1 and extractor errors, usually followed by a drain and max+1 fresh arrivals; thorough additionally enumerates "
+        "0..3/-1 and extractor errors, usually followed by a drain and max+1 fresh arrivals; a third of the scenarios use a parking "
+        "ErrorHandler (slowreject=1: rejections stay in progress until finished); a quarter are burst scenarios: rounds of pstart = "
+        "8-16 simultaneous arrivals of one source lined up by a barrier inside the extractor, limit 1-3; thorough additionally enumerates "
         "every maximal interleaving of <= 6 requests over <= 2 sources with limit 0..2 (up to the symmetry that the limiter "
         "cannot see request ids: a finish ends the oldest running request of the chosen source; exits all-normal, all-panic "
-        "or alternating); non-trivial = at least one 429, one release and one admission after a release")
+        "or alternating), and with the parking ErrorHandler every such interleaving of <= 5 requests including the ends of the "
+        "rejections; non-trivial = at least one 429/rejecting, one release and one admission after a release")
 ASSUMPTIONS = [
     "acquire and release are atomic (each runs entirely under ConnLimiter.mutex): C09 lock-discipline obligation; the thorough tier runs the harness under -race",
     "counters fit in int64",
     "the bound on the number of running requests needs extractor amounts >= 1 (theorem hypothesis; amount 0 or negative is never limited by the code — exercised and agreed with the model, not a property violation because the built-in extractors always return 1, C19)",
     "a panic inside the protected handler is recovered by the caller of ServeHTTP (net/http does so per connection)",
 ]
-TRUSTED = ["harness handler that blocks on channels realises the chosen interleaving (start returns only after the request is inside the handler or has been answered)"]
+TRUSTED = ["pstart: the spin barrier makes simultaneous arrivals likely to overlap inside acquire, it cannot force a particular schedule (a check-then-act race in acquire is found with high probability per burst, not with certainty)",
+           "harness handler that blocks on channels realises the chosen interleaving (start returns only after the request is inside the handler or has been answered)"]
 
 
 # ------------------------------------------------------------------------------------------ generation
@@ -34,26 +40,82 @@ def _tail(lines, live, mx, tag, rng=None):
         lines.append("start q%s%d s0" % (tag, i))
 
 
+def _burst_scenario(rng, tier):
+    """rounds of simultaneous arrivals of one source while it is below its limit"""
+    mx = rng.choice([1, 1, 2, 2, 3])
+    slow = rng.random() < 0.25
+    builtin = rng.random() < 0.15
+    lines = ["cfg max=%d ext=%s%s" % (mx, "builtin" if builtin else "custom", " slowreject=1" if slow else "")]
+    srcs = ["s0", "s1"]
+    held = {s: [] for s in srcs}
+    rej = []
+    for k in range(rng.randint(6, 10) if tier != "thorough" else rng.randint(10, 20)):
+        src = srcs[0] if rng.random() < 0.8 else srcs[1]
+        if rng.random() < 0.2 and len(held[src]) < mx:
+            rid = "w%d" % k
+            lines.append("start %s %s" % (rid, src))
+            held[src].append(rid)
+        n = rng.randint(8, 16)
+        pre = "b%d_" % k
+        lines.append("pstart %d %s %s" % (n, src, pre))
+        a = max(0, min(n, mx - len(held[src])))
+        held[src] += [pre + str(i) for i in range(a)]
+        if slow:
+            rej += [pre + str(i) for i in range(a, n)]
+        if rng.random() < 0.3:
+            lines.append("inflight " + src)
+        # let (almost always) everybody out again so that the next burst meets a source below its limit
+        for s in srcs:
+            keep = 1 if rng.random() < 0.1 and held[s] else 0
+            while len(held[s]) > keep:
+                rid = held[s].pop(rng.randrange(len(held[s])))
+                lines.append("finish %s %s" % (rid, rng.choice(["normal", "panic"])))
+        while rej and rng.random() < 0.9:
+            lines.append("finish %s normal" % rej.pop(rng.randrange(len(rej))))
+    return lines
+
+
 def gen(rng, tier):
     n_scen = {"quick": 1500, "thorough": 12000, "search": 1500}.get(tier, 1500)
     for k in range(n_scen):
+        if rng.random() < 0.25:
+            yield _burst_scenario(rng, tier)
+            continue
         mx = rng.choice([-1, 0, 0, 1, 1, 1, 2, 2, 2, 3, 3, 4, 5])
         builtin = rng.random() < 0.5
+        slow = rng.random() < 0.33
         nsrc = rng.randint(1, 4)
         srcs = ["s%d" % i for i in range(nsrc)]
-        lines = ["cfg max=%d ext=%s" % (mx, "builtin" if builtin else "custom")]
+        lines = ["cfg max=%d ext=%s%s" % (mx, "builtin" if builtin else "custom", " slowreject=1" if slow else "")]
         odd = (not builtin) and rng.random() < 0.35       # scenario with amounts != 1
         live = []                                          # ids the generator believes are inside the handler
+        rej = []                                           # ids the generator believes are parked in the error handler
         held = {}
         nid = 0
         n_ev = rng.randint(5, 60)
         p_start = rng.choice([0.5, 0.6, 0.7])
         for _ in range(n_ev):
             r = rng.random()
+            if rej and rng.random() < 0.25:
+                lines.append("finish %s %s" % (rej.pop(rng.randrange(len(rej))), rng.choice(["normal", "panic"])))
+                continue
             if r < p_start or not live:
-                if live and rng.random() < 0.03:
-                    rid = rng.choice(live)[0]              # protocol misuse: id still running
+                if (live or rej) and rng.random() < 0.03:
+                    rid = rng.choice([x[0] for x in live] + rej)   # protocol misuse: id still in use
                     lines.append("start %s %s" % (rid, rng.choice(srcs)))
+                    continue
+                if not odd and rng.random() < 0.04:
+                    n = rng.randint(2, 5)
+                    src = rng.choice(srcs)
+                    pre = "p%d_" % nid
+                    nid += 1
+                    lines.append("pstart %d %s %s" % (n, src, pre))
+                    a = max(0, min(n, mx - held.get(src, 0)))
+                    for i in range(a):
+                        live.append((pre + str(i), src, 1))
+                    held[src] = held.get(src, 0) + a
+                    if slow:
+                        rej += [pre + str(i) for i in range(a, n)]
                     continue
                 rid = "r%d" % nid
                 nid += 1
@@ -68,6 +130,8 @@ def gen(rng, tier):
                 if held.get(src, 0) < mx:
                     held[src] = held.get(src, 0) + amt
                     live.append((rid, src, amt))
+                elif slow:
+                    rej.append(rid)
             elif r < p_start + 0.04:
                 lines.append("finish x%d normal" % rng.randint(0, 9))    # unknown id
             elif r < p_start + 0.12:
@@ -78,22 +142,34 @@ def gen(rng, tier):
                 held[src] -= amt
                 lines.append("finish %s %s" % (rid, rng.choice(["normal", "panic"])))
         if rng.random() < 0.7:
+            if rng.random() < 0.5:
+                for rid in rej:
+                    lines.append("finish %s normal" % rid)
             _tail(lines, [x[0] for x in live], mx, "a", rng)
             for s in srcs[:2]:
                 lines.append("inflight " + s)
         yield lines
 
 
-def _interleavings(n, mx, nsrc, modes):
+def _interleavings(n, mx, nsrc, modes, slow=False):
     """every maximal sequence: exactly n starts (first from s0), every admitted request finished;
     a finish ends the oldest running request of the chosen source"""
     srcs = ["s%d" % i for i in range(nsrc)]
     out = []
 
+    rej = {s: [] for s in srcs}
+
     def rec(lines, live, started, nfin):
-        if started == n and not any(live.values()):
+        if started == n and not any(live.values()) and not any(rej.values()):
             out.append(list(lines))
             return
+        for s in srcs:
+            if rej[s]:
+                rid = rej[s].pop(0)
+                lines.append("finish %s normal" % rid)
+                rec(lines, live, started, nfin)
+                lines.pop()
+                rej[s].insert(0, rid)
         if started < n:
             for s in (srcs[:1] if started == 0 else srcs):
                 rid = "r%d" % started
@@ -101,9 +177,13 @@ def _interleavings(n, mx, nsrc, modes):
                 adm = len(live[s]) < mx
                 if adm:
                     live[s].append(rid)
+                elif slow:
+                    rej[s].append(rid)
                 rec(lines, live, started + 1, nfin)
                 if adm:
                     live[s].pop()
+                elif slow:
+                    rej[s].pop()
                 lines.pop()
         for s in srcs:
             if live[s]:
@@ -131,39 +211,58 @@ def exhaustive(tier):
                         lines = ["cfg max=%d ext=builtin" % mx] + body
                         _tail(lines, [], mx, "z")
                         yield lines
+    for mx in (0, 1, 2):
+        for nsrc in (1, 2):
+            for n in range(1, 6):
+                for modes in ("n", "a"):
+                    if mx == 0 and modes != "n":
+                        continue
+                    for body in _interleavings(n, mx, nsrc, modes, slow=True):
+                        lines = ["cfg max=%d ext=builtin slowreject=1" % mx] + body
+                        for i in range(max(mx, 0) + 1):
+                            lines.append("start qz%d s0" % i)
+                        yield lines
 
 
 # ------------------------------------------------------------------------------------------ monitor
 def _walk(ops, outs):
     """re-count from the raw log; yields violations. Restates the property, never calls the model:
-    * bound: while every arrival since the last quiescent moment carried an amount >= 1, no source has more than max requests inside the handler;
-    * 429 iff full: while every such arrival carried amount 1, an arrival is answered 429 iff the monitor's own count for that source is max (>= max for max<=0), else admitted;
-    * every finish of a running request is answered `released`, on both exits;
+    * bound: while every arrival since the last quiescent moment carried an amount >= 1, no source has more than max requests inside the protected handler;
+    * 429 iff full: while every such arrival carried amount 1, an arrival is turned away (429, or `rejecting` = parked in the slow error handler) iff the
+      monitor's own count of requests of that source *inside the protected handler* is max (>= max for max<=0), else admitted; requests that are being
+      rejected, or have been, do not count;
+    * a burst of n simultaneous unit arrivals of a source with c inside: exactly min(n, max-c) admitted, the rest turned away;
+    * every finish of a running request is answered `released`, on both exits; of a parked rejection `rejected-done`;
     * the harness-side count observed inside the handler equals the monitor's count;
-    * quiescence: when nobody is inside, the bookkeeping above restarts from scratch (so max further arrivals must be admitted);
+    * quiescence: when nobody is inside the handler, the bookkeeping above restarts from scratch (so max further arrivals must be admitted);
     * extractor error <=> err 500 and nothing admitted."""
     bad = []
     mx = None
-    live = {}          # id -> src
+    slow = False
+    live = {}          # id -> src: inside the protected handler
+    rej = {}           # id -> src: parked inside the slow error handler
     cnt = {}
     pos = one = True
-    stats = {"429": 0, "rel": 0, "adm_after_rel": 0, "panic": 0}
+    stats = {"429": 0, "rel": 0, "adm_after_rel": 0, "panic": 0, "burst": 0}
     for l, o in zip(ops, outs):
         f = l.split()
         if not f or l.startswith("#"):
             continue
         if f[0] == "cfg":
             mx = 0
+            slow = "slowreject=1" in f
             for t in f[1:]:
                 if t.startswith("max="):
                     mx = int(t[4:])
-            live, cnt, pos, one = {}, {}, True, True
+            live, rej, cnt, pos, one = {}, {}, {}, True, True
             continue
         if o in ("bad-op", "dup", "unknown"):
-            if o == "unknown" and f[0] == "finish" and f[1] in live:
-                bad.append("lost: finish of running request %s answered unknown" % f[1])
-            if o == "dup" and not (f[0] == "start" and f[1] in live):
+            if o == "unknown" and f[0] == "finish" and (f[1] in live or f[1] in rej):
+                bad.append("lost: finish of request %s, which has not ended, answered unknown" % f[1])
+            if o == "dup" and f[0] == "start" and not (f[1] in live or f[1] in rej):
                 bad.append("dup: fresh id %s answered dup" % f[1])
+            if o == "dup" and f[0] == "pstart" and not any((f[3] + str(i)) in live or (f[3] + str(i)) in rej for i in range(int(f[1]))):
+                bad.append("dup: burst with fresh ids %s* answered dup" % f[3])
             continue
         if f[0] == "start":
             rid, src = f[1], f[2]
@@ -177,7 +276,7 @@ def _walk(ops, outs):
                 if o != "err 500":
                     bad.append("extract-error: request whose source cannot be identified was answered %r, expected err 500" % o)
                 continue
-            if o.startswith("err") or o.startswith("status") or o.startswith("admitted-"):
+            if o not in ("admitted", "429", "rejecting"):
                 bad.append("status: arrival of %s answered %r" % (src, o))
                 continue
             c = cnt.get(src, 0)
@@ -185,13 +284,15 @@ def _walk(ops, outs):
                 pos = False
             if amt != 1:
                 one = False
+            turned_away = o in ("429", "rejecting")
             if one:
-                want = "429" if c >= mx else "admitted"
-                if o != want:
-                    if o == "429":
-                        bad.append("reject-not-full: source %s has %d of max %d requests inside the handler, arrival %s answered 429" % (src, c, mx, rid))
-                    else:
-                        bad.append("over-limit: source %s already has %d of max %d requests inside the handler, arrival %s answered %s" % (src, c, mx, rid, o))
+                if turned_away and c < mx:
+                    bad.append("reject-not-full: source %s has %d of max %d requests inside the handler (%d rejections in progress), arrival %s answered %s"
+                               % (src, c, mx, sum(1 for v in rej.values() if v == src), rid, o))
+                if not turned_away and c >= mx:
+                    bad.append("over-limit: source %s already has %d of max %d requests inside the handler, arrival %s answered %s" % (src, c, mx, rid, o))
+            if o == "rejecting" and not slow:
+                bad.append("status: arrival parked in an error handler that was not configured")
             if o == "admitted":
                 live[rid] = src
                 cnt[src] = c + 1
@@ -201,10 +302,36 @@ def _walk(ops, outs):
                     m = "over-limit: source %s has %d requests inside the handler, max %d" % (src, cnt[src], mx)
                     if not (bad and bad[-1].startswith("over-limit")):
                         bad.append(m)
-            elif o == "429":
-                stats["429"] += 1
             else:
-                bad.append("status: arrival answered %r" % o)
+                stats["429"] += 1
+                if o == "rejecting":
+                    rej[rid] = src
+        elif f[0] == "pstart":
+            n, src, pre = int(f[1]), f[2], f[3]
+            m = re.match(r"^admitted=(\d+) (rejected|rejecting)=(\d+)$", o)
+            if not m or (m.group(2) == "rejecting") != slow:
+                bad.append("status: burst of %d arrivals of %s answered %r" % (n, src, o))
+                continue
+            a, r = int(m.group(1)), int(m.group(3))
+            c = cnt.get(src, 0)
+            stats["burst"] += 1
+            stats["429"] += r
+            if a + r != n:
+                bad.append("lost: burst of %d arrivals of %s: %d admitted + %d turned away" % (n, src, a, r))
+            room = max(mx - c, 0)
+            if pos and a > room:
+                bad.append("over-limit: %d simultaneous arrivals of source %s, which has %d of max %d requests inside the handler: %d admitted (%d inside now)"
+                           % (n, src, c, mx, a, c + a))
+            elif one and a < min(n, room):
+                bad.append("reject-not-full: %d simultaneous arrivals of source %s, which has %d of max %d inside: only %d admitted, %d turned away" % (n, src, c, mx, a, r))
+            for i in range(a):
+                live[pre + str(i)] = src
+            cnt[src] = c + a
+            if a and stats["rel"]:
+                stats["adm_after_rel"] += 1
+            if slow:
+                for i in range(a, a + r):
+                    rej[pre + str(i)] = src
         elif f[0] == "finish":
             rid = f[1]
             if rid in live:
@@ -217,8 +344,12 @@ def _walk(ops, outs):
                     stats["panic"] += 1
                 if not live:
                     pos = one = True       # quiescent: the limiter must be as new
-            elif o == "released":
-                bad.append("exit: finish of %s which never entered the handler answered released" % rid)
+            elif rid in rej:
+                if o != "rejected-done":
+                    bad.append("exit: end of the rejection of %s answered %r" % (rid, o))
+                rej.pop(rid)
+            elif o in ("released", "rejected-done"):
+                bad.append("exit: finish of %s, which is neither inside the handler nor being rejected, answered %s" % (rid, o))
         elif f[0] == "inflight":
             if o != str(cnt.get(f[1], 0)):
                 bad.append("observed: %s requests of %s observed inside the handler, the log says %d" % (o, f[1], cnt.get(f[1], 0)))
@@ -249,7 +380,9 @@ def describe(ops, outs, hist):
         if k == "start" and any(t.startswith("amt=") and t != "amt=1" for t in f[3:]):
             k += ":amt!=1"
         if k == "cfg":
-            k += ":" + " ".join(f[1:])[:24]
+            k += ":" + " ".join(t for t in f[1:] if not t.startswith("max="))
+        if k == "pstart":
+            o = "burst"
         hist["op:" + k] += 1
         hist["out:" + o.replace(" ", "_")[:24]] += 1
 
@@ -257,12 +390,14 @@ def describe(ops, outs, hist):
 MANIFEST = {
     "text": ("Proof: Lean 4 theorems over the executable model ConnLimit.step (ServeHTTP cut at its lock-atomic steps acquire / deferred release): "
              "C04_inflight_le_max (every history with extractor amounts >= 1, every prefix, every source: requests inside the handler <= max), "
-             "C04_reject_iff_full (unit amounts: 429 iff the source already has max inside, admitted otherwise), C04_slots_exact (table entry = what the "
-             "running requests hold, after every history), C04_release_on_every_exit (return and panic give back the same slot and lead to the same state), "
+             "C04_reject_iff_full (unit amounts: turned away iff the source already has max inside the protected handler, admitted otherwise; rejections in "
+             "progress do not count), C04_slots_exact (table entry = what the running requests hold, after every history), C04_rejection_holds_nothing (an "
+             "arrival that is turned away, at once or through a slow ErrorHandler, and the end of such a rejection leave the limiter untouched), C04_release_on_every_exit (return and panic give back the same slot and lead to the same state), "
              "C04_quiescent_restores_max (no request inside => limiter equals its initial state => max fresh arrivals admitted); by invariants and induction "
              "on histories, no bound on lengths, sources or ids. Tie to connlimit/connlimit.go: the real ConnLimiter is driven in-process through "
-             "deterministic interleavings (handlers blocked on channels, panics recovered like net/http) and compared line by line with the compiled model; "
-             "thorough: every maximal interleaving of <= 6 requests over <= 2 sources with limit <= 2, -race build."),
+             "deterministic interleavings (handlers blocked on channels, a parking ErrorHandler for rejections in progress, panics recovered like net/http), "
+             "plus bursts of simultaneous arrivals lined up by a barrier inside the extractor, and compared line by line with the compiled model; "
+             "thorough: every maximal interleaving of <= 6 requests (<= 5 with parked rejections) over <= 2 sources with limit <= 2, -race build."),
     "note": ("Trusted: Lean kernel; propext/Quot.sound; hand-written model validated on generated and enumerated scenarios only; acquire/release assumed "
              "atomic (mutex; C09 lock facts and -race runs); the bound theorem needs extractor amounts >= 1 (the built-in extractors return 1, C19; a custom "
              "extractor returning 0 or a negative amount is never limited — the code and the model agree on that); int64 overflow unmodelled."),
